@@ -189,7 +189,14 @@ func (l *Listener) Accept() (c net.Conn, err error) {
 		if maxed {
 			err := fmt.Errorf("too many connections: %d", n)
 			core.Log(core.WARN, l.ctx, "service.Listener", "error", err)
-			tooMany(c)
+			// Take the connection that is waiting, and turn it
+			// away.  (There is no connection before one is
+			// accepted: tooMany(nil) ended the process.)
+			if c, err := l.l.Accept(); err != nil {
+				return nil, err
+			} else {
+				tooMany(c)
+			}
 			return nil, TooManyConnections
 		}
 	}
